@@ -6,7 +6,8 @@ import ast
 from .. import oracles as O
 from ..cfg import typestate
 from ..fold import Scope, dotted, src
-from .common import (attr_stores, ctx, expand_or_terms, ff_for, find_calls, must_pass, node_calls, or_terms, own_nodes, path_text,
+from ..facts import assigned_targets
+from .common import (attr_stores, ctx, enclosing, expand_or_terms, ff_for, find_calls, must_pass, node_calls, or_terms, own_nodes, path_text,
                      subscript_target)
 
 B = "canopen/pdo/base.py"
@@ -151,6 +152,40 @@ def run(chk):
     n_inv = [n for n, e in events.items() if e == "INV"]
     chk.check(len(n_val) >= 1, "R1", f"{B}:PdoMap.save | validation present", save.loc(), "the PDO is never validated again")
 
+    # after validation the node is subscribed on every path; the entry sub-index starts at 1 and advances by 1 per entry
+    for n in n_val:
+        wit = must_pass(ff.cfg, lambda m: events.get(m) == "SUB", from_node=n)
+        chk.check(wit is None, "R1", f"{B}:PdoMap.save | subscribe after validation", save.loc(n.ast),
+                  f"a path from the validating COB-ID write to the end of save() does not subscribe: {path_text(wit) if wit else ''}")
+    ent_nodes = [n for n, e in events.items() if e == "ENT"]
+    for n in ent_nodes:
+        k = subscript_target(n.ast.targets[0])[1]
+        if not isinstance(k, ast.Name):
+            chk.unk("R1", f"{B}:PdoMap.save | entry sub-index `{src(k)}`", save.loc(n.ast), "mapping entry sub-index is not a plain counter variable")
+            continue
+        enum = [l for l in enclosing(save.node, n.ast, (ast.For,)) if isinstance(l.iter, ast.Call) and dotted(l.iter.func) == "enumerate"
+                and l.iter.args and src(l.iter.args[0]) == "self.map" and isinstance(l.target, ast.Tuple) and src(l.target.elts[0]) == k.id]
+        if enum:
+            st_ = enum[0].iter.args[1] if len(enum[0].iter.args) > 1 else next((kw.value for kw in enum[0].iter.keywords if kw.arg == "start"), None)
+            chk.check(st_ is not None and folder.try_fold(st_, fsc, None) == 1, "R1", f"{B}:PdoMap.save | entry sub-index starts at 1", save.loc(n.ast),
+                      f"`{src(enum[0].iter)}`: the first mapping entry is sub-index 1")
+            continue
+        loops = [l for l in enclosing(save.node, n.ast, (ast.For,)) if src(l.iter) == "self.map"]
+        chk.check(bool(loops), "R1", f"{B}:PdoMap.save | entries written per mapped variable", save.loc(n.ast), "mapping entry store is not inside `for var in self.map`")
+        if not loops:
+            continue
+        loop = loops[0]
+        inits = [m for m in ff.cfg.nodes if m.kind == "stmt" and isinstance(m.ast, ast.Assign) and src(m.ast.targets[0]) == k.id
+                 and not enclosing(save.node, m.ast, (ast.For,))]
+        ok_init = [m for m in inits if folder.try_fold(m.ast.value, fsc, None) == 1 and ff.cfg.dominates(m, n)]
+        chk.check(len(inits) == 1 and len(ok_init) == 1, "R1", f"{B}:PdoMap.save | entry sub-index starts at 1", save.loc(n.ast),
+                  f"`{k.id}` initialised by {[src(m.ast) for m in inits]}; the first mapping entry is sub-index 1")
+        incs = [m for m in own_nodes(loop) if isinstance(m, ast.AugAssign) and src(m.target) == k.id]
+        ok_inc = [m for m in incs if isinstance(m.op, ast.Add) and folder.try_fold(m.value, fsc, None) == 1 and m in loop.body]
+        other = [m for m in own_nodes(loop) if isinstance(m, ast.Assign) and k.id in assigned_targets(m)]
+        chk.check(len(incs) == 1 and len(ok_inc) == 1 and not other, "R1", f"{B}:PdoMap.save | entry sub-index advances by one", save.loc(n.ast),
+                  f"`{k.id}` updated in the loop by {[src(m) for m in incs + other]}; expected exactly one unconditional `{k.id} += 1` per mapped variable")
+
     # ------------------------------------------------------------------ R2 encodings
     for n in n_inv + n_val:
         st = n.ast
@@ -206,6 +241,45 @@ def run(chk):
     cob_src = fr.one_def("cob_id")
     chk.check(cob_src is not None and src(cob_src) == "_raw_from(self.com_record[1])", "R2", f"{B}:PdoMap.read | COB-ID source", read.loc(),
               f"cob_id read from {src(cob_src) if cob_src is not None else '?'}")
+
+    # the mapping loop of read(): cleared first, sub-indices 1..count, one add_variable per non-empty entry
+    clears = [n for n in fr.cfg.nodes if n.kind == "stmt" and isinstance(n.ast, ast.Expr) and isinstance(n.ast.value, ast.Call)
+              and dotted(n.ast.value.func) == "self.clear"]
+    adds = find_calls(read.node, "self.add_variable")
+    chk.floor("R2", len(adds), 1, "add_variable in read")
+    for c in adds:
+        st = fr.stmt_of(c)
+        cn = fr.cfg.node_of(st)
+        chk.check(any(fr.cfg.dominates(x, cn) for x in clears), "R2", f"{B}:PdoMap.read | old mapping cleared first", read.loc(c),
+                  "no self.clear() dominates add_variable(): entries of a previous read()/configuration stay in the map")
+        chk.check([src(a) for a in c.args] == ["index", "subindex", "size"] and not c.keywords, "R2", f"{B}:PdoMap.read | add_variable arguments", read.loc(c),
+                  f"{src(c)}; expected add_variable(index, subindex, size)")
+        g = [(fr.norm(e, subst=False), p) for e, p in fr.facts_at(st)]
+        guards = [(t, p) for t, p in g if "curtis_hack" not in t]
+        pos = {t for t, p in guards if p}
+        chk.check(all(p for _, p in guards) and pos <= {"index", "size", "index and size", "size and index"} and pos, "R2",
+                  f"{B}:PdoMap.read | entry kept when non-empty", read.loc(c), f"add_variable() runs under {guards}; expected `index and size`")
+        loops = enclosing(read.node, st, (ast.For,))
+        chk.check(len(loops) == 1, "R2", f"{B}:PdoMap.read | mapping loop", read.loc(c), "add_variable() is not inside exactly one loop")
+        for lp in loops[:1]:
+            it = lp.iter
+            okr = (isinstance(it, ast.Call) and dotted(it.func) == "range" and len(it.args) == 2 and folder.try_fold(it.args[0], fsc, None) == 1)
+            cnt_name = None
+            if okr:
+                hi = it.args[1]
+                hs = fr.norm(hi, subst=False)
+                m = [nm for nm in [x.id for x in ast.walk(hi) if isinstance(x, ast.Name)]]
+                okr = len(m) == 1 and hs in (f"{m[0]} + 1", f"1 + {m[0]}")
+                cnt_name = m[0] if m else None
+            chk.check(okr, "R2", f"{B}:PdoMap.read | sub-indices 1..count", read.loc(lp), f"loop over `{src(it)}`; expected range(1, count + 1)")
+            if cnt_name:
+                d = fr.one_def(cnt_name)
+                chk.check(d is not None and src(d) == "_raw_from(self.map_array[0])", "R2", f"{B}:PdoMap.read | count source", read.loc(lp),
+                          f"{cnt_name} = {src(d) if d is not None else '?'}; expected _raw_from(self.map_array[0])")
+            lv = src(lp.target)
+            vals = [n for n in own_nodes(lp) if isinstance(n, ast.Assign) and src(n.targets[0]) == "value"]
+            chk.check(len(vals) == 1 and src(vals[0].value) == f"_raw_from(self.map_array[{lv}])" and vals[0] is lp.body[0], "R2",
+                      f"{B}:PdoMap.read | entry source", read.loc(lp), f"value = {[src(v.value) for v in vals]}; expected _raw_from(self.map_array[{lv}]) as the first statement of the loop")
 
     # ------------------------------------------------------------------ R3 sub-index agreement
     save_pairs, read_pairs = {}, {}
